@@ -18,7 +18,7 @@ def _mk(cls):
 for _cls in ('Wire', 'BidirWire'):
     K = getattr(py4hw, _cls) if hasattr(py4hw, _cls) else getattr(py4hw.base, _cls)
     common = dict(make=_mk(K), cfgs=lambda t: [dict(width=w) for w in (1, 2, 3, 8, 64)], kind='method',
-                  symbolic={'width': 'field', 'value': 'field', 'next': 'field'}, props=('C06',),
+                  symbolic={'width': 'field', 'value': 'field', 'next': 'field'}, props=('C06', 'C05'),
                   requires=['self.width >= 0', '0 <= self.value and self.value < pow2(self.width)',
                             '0 <= self.next and self.next < pow2(self.width)'])
     leaf(F, _cls, 'put', args=['val'], fields={'value': 'M(val, self.width)'},
